@@ -10,7 +10,7 @@ if [ ! -d .deps/atheris ]; then
   /venv/bin/pip install --no-index --find-links /opt/veriftools/wheels --target .deps atheris >/dev/null 2>&1 \
     || echo "setup: atheris not installable; the coverage-guided tier will be reported as skipped"
 fi
-/venv/bin/python - <<'PY' || exit 1
+/venv/bin/python -W ignore - <<'PY' || exit 1
 import sys
 sys.path.insert(0, '.')
 from lib import env
